@@ -16,8 +16,9 @@
 (*    empty, a range spanning / after / before the transition, ranges      *)
 (*    touching 24:00 and 00:00, and seeded random whole-minute ranges;     *)
 (*  * the INSTANTS examined: every instant of the window (exhaustive       *)
-(*    model, scaled calendar) or probe instants (vector generation on real    *)
-(*    tables, tick = 1 s): a half-hour grid plus, around every wall-clock  *)
+(*    model on a scaled calendar: 24 hours of 12 `minutes', tick = one     *)
+(*    `minute', two sub-ticks) or probe instants (real tables, tick = 1 s, *)
+(*    sub-tick = 1 ns): a half-hour grid plus, around every wall-clock     *)
 (*    range edge, every local midnight and every transition, the instants  *)
 (*    edge - 1 sub-tick, edge, edge + 1 sub-tick -- all occurrences of a   *)
 (*    repeated wall-clock time included.                                   *)
@@ -28,7 +29,11 @@
 (*                         AllInstants, checked exhaustively;              *)
 (*   ScheduleHost.gen.cfg  Cases read from the host's tz database          *)
 (*                         (ScheduleHost.tla), probes, vectors emitted.    *)
-(* The serialisation vectors (validation verdicts) are produced by both.   *)
+(* The serialisation vectors (validation verdicts, in milliseconds) are     *)
+(* produced by both; the orchestrator takes them from the mc run.          *)
+(*                                                                         *)
+(* Nothing here looks at schedule.go: the expected verdict of every row is  *)
+(* ScheduleCore!InEffect applied to ScheduleCore!WallClock.                 *)
 (***************************************************************************)
 EXTENDS Integers, Sequences, FiniteSets, TLC, Json
 
